@@ -326,7 +326,7 @@ class FnAnalysis:
             bv = st.val.get(self.resolve(st, base))
             if bv and bv[0] == "tuple" and projs[-1]["f"] < len(bv[1]):
                 return bv[1][projs[-1]["f"]]
-            if bv and bv[0] == "opt" and bv[2] is not None:
+            if bv and bv[0] == "opt" and bv[1] != "guard" and bv[2] is not None:
                 return bv[2]
             if bv and bv[0] == "range":
                 nm = projs[-1].get("n")
@@ -337,7 +337,7 @@ class FnAnalysis:
         if len(projs) >= 2 and isinstance(projs[-1], dict) and "f" in projs[-1] and isinstance(projs[-2], dict) and "dc" in projs[-2]:
             base = {"l": place["l"], "p": projs[:-2]}
             bv = st.val.get(self.resolve(st, base))
-            if bv and bv[0] == "opt" and bv[2] is not None and projs[-2].get("n") in ("Some", "Ok", "Continue"):
+            if bv and bv[0] == "opt" and bv[1] != "guard" and bv[2] is not None and projs[-2].get("n") in ("Some", "Ok", "Continue"):
                 return bv[2]
         c = self.place_class(place)
         if c in INT_BOUNDS and c != "bool":
@@ -1037,6 +1037,8 @@ class FnRun(FnAnalysis):
                         out = src if ok else ("int", None, lo, hi, src[4], frozenset())
                 elif v[1] == "write_string":
                     ok, why = True, "fmt::Write for String never fails"
+                elif v[1] == "guard":
+                    out = None      # the result of a summarised helper: its payload is unknown
                 else:
                     out = v[2]
             sig = "%s on %s" % (last, (v[1] if v and v[0] == "opt" else "unknown"))
